@@ -247,12 +247,59 @@ def build(label, seed, nedits):
     return cd, edits
 
 
+def derived_project_probe(ctx):
+    """Two generations in ONE process through the public entry point: the shipped project, then a copy of it in which
+    one class was renamed directly in the project file (SQL). The second output must follow the second project file
+    (read independently with sqlite3): a header for the new name, none for the old one."""
+    import shutil
+    import sqlite3
+    from ..kj import Generate, quiet, scratch, read_tree
+    diagram = "TestClassDiagram"
+    with scratch() as d:
+        db = os.path.join(d, "derived.vpp")
+        shutil.copy(us.BLOB_XML, db)
+        con = sqlite3.connect(db)
+        cur = con.cursor()
+        did = cur.execute("SELECT ID FROM DIAGRAM WHERE NAME=? AND DIAGRAM_TYPE='ClassDiagram'", (diagram,)).fetchone()[0]
+        drawn = [r[0] for r in cur.execute("SELECT MODEL_ELEMENT_ID FROM DIAGRAM_ELEMENT WHERE DIAGRAM_ID=?", (did,)).fetchall()]
+        classes = [(i, n, blob) for (i, t, n, blob) in cur.execute("SELECT ID, MODEL_TYPE, NAME, DEFINITION FROM MODEL_ELEMENT") if t == "Class" and i in drawn]
+        cands = [(i, n, b) for (i, n, b) in classes if isinstance(b, bytes) and b.startswith(('%s:"%s":Class ' % (i, n)).encode())
+                 and sum(1 for c in classes if c[1] == n) == 1]
+        if not cands:
+            con.close()
+            ctx.count("derived_project_probe_skipped")
+            return
+        cid, old, blob = cands[ctx.rng.randrange(len(cands))]
+        new = "CRenamed" + old[1:]
+        head_old = ('%s:"%s":Class ' % (cid, old)).encode()
+        head_new = ('%s:"%s":Class ' % (cid, new)).encode()
+        with con:
+            cur.execute("UPDATE MODEL_ELEMENT SET NAME=?, DEFINITION=? WHERE ID=?", (new, head_new + blob[len(head_old):], cid))
+        con.close()
+        try:
+            with quiet():
+                Generate.UML(os.path.join(d, "o1"), us.BLOB_XML, diagram, "", "a", "g", "b", True)
+                Generate.UML(os.path.join(d, "o2"), db, diagram, "", "a", "g", "b", True)
+        except Exception as e:  # noqa
+            ctx.violation("the second generation in one process (derived project file) raised %r" % e,
+                          {"finding_key": "uml:derived-project-second-generation", "renamed": [old, new]})
+            return
+        names2 = {os.path.basename(p) for p in read_tree(os.path.join(d, "o2"))}
+    ctx.case(("derived-project", old), nontrivial=True)
+    ctx.count("derived_project_probe")
+    if (new + ".h") not in names2 or (old + ".h") in names2:
+        ctx.violation("second generation in the same process does not follow its own project file: class %s was renamed %s in the file, "
+                      "generated headers: %s" % (old, new, sorted(n for n in names2 if n.endswith(".h"))[:12]),
+                      {"finding_key": "uml:derived-project-second-generation", "renamed": [old, new]})
+
+
 def run(ctx):
     for p in sorted(glob.glob(os.path.join(VERIF, "corpus", "C19", "*.json"))):
         data = unjson(json.load(open(p)))
         ctx.case(("corpus", p))
         if not replay(ctx, data):
             ctx.violation("corpus case %s fails" % os.path.basename(p), data)
+    derived_project_probe(ctx)
     n = ctx.budget(60, 200)
     cases = [(label, 0, 0) for label in us.DIAGRAMS] + [("TestClassDiagram", -1, 0)]
     for i in range(n):
